@@ -598,6 +598,15 @@ func one(seed int64, index int, sz Sizes, s *wp.Sink, st *Stats) {
 		}
 		ops = append(ops, "r:"+sa+":"+sb2)
 	}
+	// inverted bounds (Limit < Start) and bounds outside the key range
+	for i := 0; i < 3; i++ {
+		a, b := qs[r.Intn(len(qs))], qs[r.Intn(len(qs))]
+		if bytes.Compare(a, b) < 0 {
+			a, b = b, a
+		}
+		ops = append(ops, "r:"+hx(a)+":"+hx(b))
+	}
+	ops = append(ops, "r:"+hx(bytes.Repeat([]byte{0xff}, 201))+":nil", "r:nil:-", "r:"+hx(bytes.Repeat([]byte{0xff}, 201))+":"+hx(bytes.Repeat([]byte{0xff}, 202)))
 	g1 := runOps(file, c, false, ops)
 	g2 := runOps(file, c, true, ops)
 	if c.N == 0 {
